@@ -516,7 +516,10 @@ func toString(v value) string {
 		if v == nil {
 			return "<nil>"
 		}
-		return fmt.Sprintf("%p", v)
+		if st, ok := (*v).(structure); ok && len(st) <= 3 {
+			return "&" + toString(st)
+		}
+		return "&<obj>"
 	}
 	return fmt.Sprintf("<%T>", v)
 }
